@@ -182,47 +182,47 @@ Section JoinProofs.
 
   (** ---- one call of next() ---- *)
   Lemma jrun_S : forall f cap (st : jstate L R),
-    jrun (S f) cap st =
-    match jnext cap st with
+    jrun_pre (S f) cap st =
+    match jnext_pre cap st with
     | (_, None) => ([], true)
-    | (st', Some ch) => let '(chs, fin) := jrun f cap st' in (ch :: chs, fin)
+    | (st', Some ch) => let '(chs, fin) := jrun_pre f cap st' in (ch :: chs, fin)
     end.
   Proof. reflexivity. Qed.
 
   Lemma jnext_cur : forall cap (rest : list row) (cur : list R) rest' cur' exh' out,
     cur <> [] -> out <> [] ->
     fill cap rest cur false [] = (rest', cur', exh', out) ->
-    jnext cap (mk_j rest cur false) = (mk_j rest' cur' exh', Some out).
+    jnext_pre cap (mk_j rest cur false) = (mk_j rest' cur' exh', Some out).
   Proof.
     intros cap rest cur rest' cur' exh' out Hc Ho EF.
-    unfold jnext. cbn [j_exhausted j_cur j_rest andb].
+    unfold jnext_pre. cbn [j_exhausted j_cur j_rest andb].
     destruct cur as [|c cur0]; [congruence|].
     rewrite EF. destruct out as [|o out0]; [congruence|]. reflexivity.
   Qed.
 
-  Lemma jnext_done : forall cap, jnext cap (mk_j (@nil row) (@nil R) true) = (mk_j [] [] true, None).
+  Lemma jnext_done : forall cap, jnext_pre cap (mk_j (@nil row) (@nil R) true) = (mk_j [] [] true, None).
   Proof. reflexivity. Qed.
 
   Lemma jnext_init_some : forall cap (rows rest' : list row) (cur' : list R),
     cur' <> [] -> advance_left rows = Some (rest', cur') ->
-    jnext cap (jinit rows) = jnext cap (mk_j rest' cur' false).
+    jnext_pre cap (jinit rows) = jnext_pre cap (mk_j rest' cur' false).
   Proof.
     intros cap rows rest' cur' Hc EA.
-    unfold jnext, jinit. cbn [j_exhausted j_cur j_rest andb]. rewrite EA.
+    unfold jnext_pre, jinit. cbn [j_exhausted j_cur j_rest andb]. rewrite EA.
     destruct cur' as [|c cur0]; [congruence|]. reflexivity.
   Qed.
 
   Lemma jnext_init_none : forall cap (rows : list row),
-    advance_left rows = None -> jnext cap (jinit rows) = (mk_j [] [] true, None).
+    advance_left rows = None -> jnext_pre cap (jinit rows) = (mk_j [] [] true, None).
   Proof.
-    intros cap rows EA. unfold jnext, jinit. cbn [j_exhausted j_cur j_rest andb].
+    intros cap rows EA. unfold jnext_pre, jinit. cbn [j_exhausted j_cur j_rest andb].
     rewrite EA. reflexivity.
   Qed.
 
   (** ---- the whole run from a state at the start of a call ---- *)
   Lemma jrun_from : forall cap, 1 <= cap -> forall m (rest : list row) (cur : list R),
     length (jrem rest cur) <= m -> J cap 0 rest cur ->
-    exists fuel chs, jrun fuel cap (mk_j rest cur false) = (chs, true) /\
+    exists fuel chs, jrun_pre fuel cap (mk_j rest cur false) = (chs, true) /\
       concat chs = jrem rest cur /\ Forall (fun ch => 1 <= length ch <= cap) chs.
   Proof.
     intros cap Hcap. assert (Hc0 : cap <> 0) by lia.
@@ -276,7 +276,7 @@ End JoinProofs.
 
 Lemma join_is_row_by_row_l : forall (L R : Type) (cap : nat) (rows : list (L * list R)),
   (1 <= cap)%nat -> k_join_boundary cap rows = false ->
-  exists fuel chs, jrun fuel cap (jinit rows) = (chs, true) /\ concat chs = join_spec rows /\
+  exists fuel chs, jrun_pre fuel cap (jinit rows) = (chs, true) /\ concat chs = join_spec rows /\
                    Forall (fun ch => (1 <= length ch <= cap)%nat) chs.
 Proof.
   intros L R cap rows Hcap HK. unfold k_join_boundary in HK.
@@ -299,12 +299,12 @@ Qed.
 
 Lemma join_refuted_l : exists (cap : nat) (rows : list (Z * list Z)),
   (1 <= cap)%nat /\ k_join_boundary cap rows = true /\
-  forall fuel, exists ch, jrun fuel cap (jinit rows) = (repeat ch fuel, false).
+  forall fuel, exists ch, jrun_pre fuel cap (jinit rows) = (repeat ch fuel, false).
 Proof.
   exists 2%nat, [(0%Z, [10%Z; 11%Z]); (1%Z, [20%Z; 21%Z])].
   split; [lia|]. split; [vm_compute; reflexivity|].
   intros fuel. exists [(0%Z, 10%Z); (0%Z, 11%Z)].
-  assert (Hstep : jnext 2 (jinit [(0%Z, [10%Z; 11%Z]); (1%Z, [20%Z; 21%Z])]) =
+  assert (Hstep : jnext_pre 2 (jinit [(0%Z, [10%Z; 11%Z]); (1%Z, [20%Z; 21%Z])]) =
                   (jinit [(0%Z, [10%Z; 11%Z]); (1%Z, [20%Z; 21%Z])],
                    Some [(0%Z, 10%Z); (0%Z, 11%Z)])).
   { vm_compute. reflexivity. }
